@@ -25,9 +25,9 @@ def _auto(prog, reg, repo):
     return _cache["auto"]
 
 
-def ob(name, ok, detail=None, size=None, witness=None, exhaustive=True, checker_error=False, bounded=False):
+def ob(name, ok, detail=None, size=None, witness=None, exhaustive=True, checker_error=False, bounded=False, undecided=False):
     return {"name": name, "ok": bool(ok), "detail": detail, "size": size, "witness": witness, "exhaustive": exhaustive,
-            "checker_error": checker_error, "bounded": bounded}
+            "checker_error": checker_error, "bounded": bounded, "undecided": undecided}
 
 
 # ------------------------------------------------------------------------------------------------
@@ -42,6 +42,21 @@ def f_table_extraction(prog, reg, repo):
     n_paths = sum(len(ps) for cfg in a["tbl"].values() for ps in cfg.values())
     out.append(ob("automaton::extract[42 state functions x {eof,non-eof} x {collect,stop}]", True, size=n_paths))
     return out
+
+
+def f_dispatch(prog, reg, repo):
+    """The dispatcher Parser.match_token (whose contract in contracts/b_parser.py is abstract) is the plain table dispatch:
+    for each of the 42 states exactly one call of that state's function with the same token and context, its result
+    returned, nothing else done; unknown states raise.  Decided by symbolic execution for every state value."""
+    a = _auto(prog, reg, repo)
+    try:
+        probs = automaton.dispatch_summary(prog, reg, a["states"])
+    except Exception as e:
+        return [ob("automaton::dispatch[match_token calls match_token_at_<state> and nothing else]", False,
+                   f"dispatcher outside the analysable subset: {type(e).__name__}: {e}", undecided=True,
+                   size=len(a["states"]))]
+    return [ob("automaton::dispatch[match_token calls match_token_at_<state>(token, context) once, returns its result, does nothing else]",
+               not probs, "; ".join(probs[:3]), size=len(a["states"]) + 2, witness=probs[:3] or None)]
 
 
 def f_modes(prog, reg, repo):
@@ -339,25 +354,25 @@ f_traces = f_rt("parser_traces", "parser-traces", bounded=True, args_quick=("--b
 
 
 PROPS = {
-    "C01": dict(finite=[f_table_extraction, f_modes, f_lookahead_targets, f_traces, f_docs("total,errors")]),
-    "C02": dict(finite=[f_table_extraction, f_siblings, f_bisim, f_traces]),
+    "C01": dict(finite=[f_table_extraction, f_dispatch, f_modes, f_lookahead_targets, f_traces, f_docs("total,errors")]),
+    "C02": dict(finite=[f_table_extraction, f_dispatch, f_siblings, f_bisim, f_traces, f_docs("documents,history")]),
     "C03": dict(finite=[f_build_once, f_corpus(["ast"], "ast"), f_docs("documents")]),
     "C04": dict(finite=[f_docs("documents,layout")]),
     "C05": dict(finite=[f_json_identity, f_matcher]),
-    "C06": dict(finite=[f_compile]),
-    "C07": dict(finite=[f_compile]),
-    "C08": dict(finite=[f_compile]),
-    "C09": dict(finite=[f_compile]),
-    "C10": dict(finite=[f_compile, f_matcher]),
+    "C06": dict(finite=[f_compile, f_docs("documents")]),
+    "C07": dict(finite=[f_compile, f_docs("documents")]),
+    "C08": dict(finite=[f_compile, f_docs("documents")]),
+    "C09": dict(finite=[f_compile, f_docs("documents")]),
+    "C10": dict(finite=[f_compile, f_matcher, f_docs("documents")]),
     "C11": dict(finite=[f_compile, f_docs("documents,stream")]),
     "C12": dict(finite=[f_docs("documents,errors")]),
     "C13": dict(finite=[f_docstring_states, f_docs("documents")]),
-    "C14": dict(finite=[f_modes, f_siblings, f_corpus(["errors"], "errors"), f_traces, f_matcher, f_docs("errors")]),
+    "C14": dict(finite=[f_dispatch, f_modes, f_siblings, f_corpus(["errors"], "errors"), f_traces, f_matcher, f_docs("errors")]),
     "C15": dict(finite=[f_no_hidden_state, f_compile, f_matcher, f_docs("history")]),
     "C16": dict(finite=[f_docs("layout,insertion,errors")]),
     "C17": dict(finite=[f_corpus(["source", "ast", "pickles", "errors"], "events"), f_docs("stream,layout")]),
-    "C18": dict(finite=[f_table_extraction, f_build_once, f_lookahead_targets, f_corpus(["tokens"], "tokens"), f_traces,
-                        f_docs("documents")]),
+    "C18": dict(finite=[f_table_extraction, f_dispatch, f_build_once, f_lookahead_targets, f_corpus(["tokens"], "tokens"), f_traces,
+                        f_docs("documents,history")]),
     "C19": dict(finite=[f_markdown]),
 }
 
@@ -427,9 +442,14 @@ COMMON_TRUST = [
 def trusted_base(pid, reg):
     tb = list(COMMON_TRUST)
     if reg is not None:
+        # mechanical scan of the sidecars: everything that is assumed rather than proved
         for q, c in reg.contracts.items():
             if c.trusted:
-                tb.append(f"trusted contract: {q}")
+                tb.append(f"trusted contract (external / dynamic code): {q}")
+            elif c.abstract:
+                tb.append(f"assumed contract (abstract ghost view, not checked against a body): {q}")
+            elif c.bounded_only:
+                tb.append(f"contract used by callers but decided only by enumeration / bounded stand-in: {q}")
     if pid in ("C02", "C14"):
         tb.append("textual extraction of the sibling parsers' tables (regular expressions over generated code; a count other than 42/334 is a checker error)")
         tb.append("my reader of the 30-line .berp grammar format and the position-automaton construction (pyvc/automaton.py)")
@@ -437,7 +457,9 @@ def trusted_base(pid, reg):
 
 
 def assumptions(pid, reg):
+    from .claims import CLAIMS
     a = [
+        "limits of this property's check (from the claim table): " + CLAIMS.get(pid, {}).get("note", ""),
         "Python ints are mathematical integers (exact); str is a sequence of code points modelled as Seq(Int) without an upper bound on code points",
         "character-class facts about str.isspace / \\s: the 29 white-space code points (validated against CPython over all 0x110000 code points by axiom_check)",
         "termination of re/io/json library calls",
